@@ -26,11 +26,16 @@ def offset_of(st):
     return (lambda q: a.at(q)), False
 
 
-def charac(P, idx, q, u0, size, n):
+def charac(P, idx, q, u0, size, n, absorb_last=False):
     """sample q selects the first index whose cumulative weight reaches its comb position: P(i-1) < pos_q <= P(i).
-    No escape clause for the last index: the weights the comb runs over sum to one, so every position (< 1) has its cell."""
+    No escape clause for the last index: the weights the comb runs over sum to one, so every position (< 1) has its cell.
+    absorb_last=True is the binary64 safety arm only: there the running total may end a rounding error below the last position and
+    the last index takes it (index *safety* is what that arm proves, not the copy counts)."""
     iq = idx.at(q)
-    return z3.And(z3.Or(iq == 0, P(iq - 1) < pos(u0, q, size)), pos(u0, q, size) <= P(iq))
+    upper = pos(u0, q, size) <= P(iq)
+    if absorb_last:
+        upper = z3.Or(upper, iq == n - 1)
+    return z3.And(z3.Or(iq == 0, P(iq - 1) < pos(u0, q, size)), upper)
 
 
 def systematic(ctx, arm):
@@ -49,6 +54,7 @@ def systematic(ctx, arm):
             st.assume(S == 1)
         else:
             st.assume(z3.And(S != 1, S > 0))
+        info["rounded"] = arm == "rounded-total"
         info.update(size=size, n=n, w=w, wr=wr)
         return dict(args=[size, wr])
 
@@ -70,7 +76,7 @@ def systematic(ctx, arm):
             z3.Or(j == 0, z3.And(k >= 1, P(j - 1) < pos(u0, k - 1, size))),
             z3.ForAll([q], z3.Implies(z3.And(q >= 0, q < k), z3.And(idx.at(q) >= 0, idx.at(q) <= j))),
             z3.ForAll([q], z3.Implies(z3.And(q >= 0, q < k - 1), idx.at(q) <= idx.at(q + 1))),
-            z3.ForAll([q], z3.Implies(z3.And(q >= 0, q < k), charac(P, idx, q, u0, size, n))))
+            z3.ForAll([q], z3.Implies(z3.And(q >= 0, q < k), charac(P, idx, q, u0, size, n, absorb_last=info["rounded"]))))
 
     def inner(v):
         W, P, u0 = facts(v)
@@ -97,7 +103,9 @@ def systematic(ctx, arm):
              ("range", z3.ForAll([q], z3.Implies(z3.And(q >= 0, q < size), z3.And(idx.at(q) >= 0, idx.at(q) < n)))),
              ("monotone", z3.ForAll([q], z3.Implies(z3.And(q >= 0, q < size - 1), idx.at(q) <= idx.at(q + 1)))),
              ("characterisation", z3.ForAll([q], z3.Implies(z3.And(q >= 0, q < size),
-                                                            charac(st.ghost["final_P"], idx, q, u0, size, n))))]
+                                                            charac(st.ghost["final_P"], idx, q, u0, size, n, absorb_last=info["rounded"]))))]
+        if info["rounded"]:
+            return g[:4]          # binary64 safety arm: exactly `size` indices, each valid, non-decreasing — whatever the rounding of the total
         g.append(("comb-runs-over-weights-summing-to-one", st.ghost["final_P"](n - 1) == 1))
         return g
 
@@ -119,7 +127,16 @@ def systematic(ctx, arm):
                 u0 = zval(model, d())
         return {"replayer": "c06_systematic", "input": {"size": size, "w": w, "u0": u0 if u0 is not None else 0.5}}
 
-    ctx.verify(arm, TOOLS, "systematic_resample", setup, post, witness=witness, replayer="c06_systematic",
+    def h_sum_rounded(I, st, args, kw, node):
+        """binary64 model of np.sum(weights): the pairwise-summed total differs from the sequentially accumulated running total of
+        the comb loop by a relative rounding error (|eps| <= 1e-12 covers 1e4 terms); after dividing by it the weights the loop
+        accumulates end within that error of 1 — above or below"""
+        a = st.arr(args[0])
+        eps = fresh_scalar("real", "eps_sum")
+        st.assume(z3.And(eps >= -z3.RealVal("1e-12"), eps <= z3.RealVal("1e-12")))
+        return sums.total(st, a) * (1 + eps)
+    ex_r = {"numpy.sum": h_sum_rounded} if arm == "rounded-total" else None
+    ctx.verify(arm, TOOLS, "systematic_resample", setup, post, witness=witness, replayer="c06_systematic", extras=ex_r,
                loops={0: LoopSpec(outer_rec, label="comb"),
                       1: LoopSpec(inner, label="advance", variant=(lambda v: ("int", info["n"] - 1 - v["j"])) if ctx.prop == "C18" else None)})
 
@@ -231,6 +248,7 @@ def run(ctx):
     _lean.require(ctx, "Sums.lean", ['prefix_unique', 'sum_prefix_nonneg', 'sum_prefix_mono', 'sum_scale', 'sum_div_const'])
     systematic(ctx, "sum-exactly-one")
     systematic(ctx, "renormalised")
+    systematic(ctx, "rounded-total")
     counting_lemmas(ctx)
     resampler(ctx, "mult")
     resampler(ctx, "syst")
